@@ -162,15 +162,22 @@ pub fn table_record(case: &Value, n: u64, seed: u64) -> Value {
         let marker = if variant % 2 == 0 { "Securities Owned\n\nCombined in (CAD)" } else { "Securities Owned Combined in (CAD)" };
         let month_page = format!("Leading text\n{}\n", month_line(y, m, d, variant));
         let fmv_page = format!("Some page header\n{}\n{}\n", marker, body.join("\n"));
+        // one statement in three also has the US-dollar section, on the page before: only the table
+        // "Combined in (CAD)" is the one to be read
+        let usd_page = format!(
+            "Some page header\nSecurities Owned Combined in (USD)\nALLOCATION (%) MARKET VALUE ($)\n{b} USD THING (UUU) 100.0 7,777.0\n100.0 7,777.0\n",
+            b = BULLET
+        );
+        let with_usd = variant % 3 == 0;
         let (obs, panicked) = if via == "text" {
             fed = body.clone();
-            let pages = vec![month_page, fmv_page];
+            let pages = if with_usd { vec![month_page, usd_page, fmv_page] } else { vec![month_page, fmv_page] };
             match catch_unwind(AssertUnwindSafe(|| parse_statement_text(pages.iter()))) {
                 Ok(r) => (obs_of(r), false),
                 Err(_) => (obs_of(Err("panic".into())), true),
             }
         } else {
-            let mut doc = make_pdf(&[month_page, fmv_page]);
+            let mut doc = if with_usd { make_pdf(&[month_page, usd_page, fmv_page]) } else { make_pdf(&[month_page, fmv_page]) };
             pipeline(reload(&mut doc), variant % 2 == 1)
         };
         runs.push(json!({"via": via, "obs": obs, "panicked": panicked}));
